@@ -92,6 +92,12 @@ func (c *FileBackupClient) PosMap(ctx context.Context) (map[string]ltx.Pos, erro
 		if err != nil {
 			return nil, err
 		}
+
+		// A directory without a transaction file is not a database of the
+		// backup (lost+found on a mounted volume, a failed first upload).
+		if pos.IsZero() {
+			continue
+		}
 		m[ent.Name()] = pos
 	}
 
